@@ -37,7 +37,7 @@ CLASS_FLOORS.update({"refusal-short": 10, "refusal-version": 10, "refusal-type":
 
 def plan(tier):
     if tier == "thorough":
-        return {"shards": 16, "params": {"L": 8, "rt_cases": 120000, "budget_s": 2400, "reach_cap": 50},
+        return {"shards": 16, "params": {"L": 9, "rt_cases": 200000, "budget_s": 2400, "reach_cap": 50},
                 "timeout_s": 4000}
     return {"shards": 4, "params": {"L": 6, "rt_cases": 12000, "budget_s": 400, "reach_cap": 50}, "timeout_s": 900}
 
